@@ -173,7 +173,13 @@ def _sizes(rng, nb, style):
     return out
 
 
-def gen_case(rng, cid, ptr, n_prog, adversarial=False, hist_share=0.4):
+# event coordinate dtypes: raw event files store the time of flight as float or as integer ticks (NeXus
+# event_time_offset: int32 or int64); probed on the clean implementation: every target is served for every one of them
+TOF_DTYPES = ['float64', 'float32', 'int64', 'int32']
+INT_TOF = ('int64', 'int32')
+
+
+def gen_case(rng, cid, ptr, n_prog, adversarial=False, hist_share=0.4, tof_dtype=None, dataset=None):
     grid = rng.choices(['1d', 'outer', 'inner', 'flat2d'], [35, 35, 12, 18])[0]
     if grid == '1d':
         shape = [rng.choice([0] + list(range(1, 25))) if rng.random() < 0.03 else rng.randint(1, 24)]
@@ -226,8 +232,9 @@ def gen_case(rng, cid, ptr, n_prog, adversarial=False, hist_share=0.4):
             a1 = rng.randint(0, shape[1])
             b1 = rng.randint(a1, shape[1])
             view = ['slice2', dims[0], a0, b0, dims[1], a1, b1]
-    tof_dtype = rng.choices(['float64', 'float32', 'int64'], [45, 30, 25])[0]
-    tof_unit = rng.choice(['us', 'ns']) if tof_dtype == 'int64' else rng.choice(['us', 'us', 'ms', 's', 'ns'])
+    drawn = rng.choices(TOF_DTYPES, [38, 24, 19, 19])[0]
+    tof_dtype = tof_dtype or drawn
+    tof_unit = rng.choice(['us', 'ns']) if tof_dtype in INT_TOF else rng.choice(['us', 'us', 'ms', 's', 'ns'])
     geometry = rng.choice(['positions', 'direct'])
     case = {
         'id': cid, 'seed': rng.getrandbits(48), 'grid': grid, 'shape': shape, 'sizes': sizes, 'order': order,
@@ -241,6 +248,8 @@ def gen_case(rng, cid, ptr, n_prog, adversarial=False, hist_share=0.4):
         'pixel_mask': rng.random() < 0.6, 'mask2d': rng.random() < 0.4, 'event_mask': rng.random() < 0.3,
         'dataset': rng.random() < 0.12,
     }
+    if dataset is not None:
+        case['dataset'] = dataset
     want_geo = geometry == 'positions' and ptr['layout'] % 2 == 0
     ptr['layout'] += 1
     progs = []
@@ -359,8 +368,10 @@ def _judge_py(ctx, case, cres, where):
                 key = f'{key_tag(prog["tag"])}:raises-{exc}:{case["grid"]}:{vk}'
             ctx.violation(key,
                           f'convert(binned, {(prog.get("hist") or {}).get("origin", "tof")} -> {prog["target"]}, '
-                          f'scatter={prog["scatter"]}){_hist_text(prog, pr)} raises {pr["error"]} on layout '
-                          f'{summary_of(case, cres)}', {'case': one, 'error': pr['error']})
+                          f'scatter={prog["scatter"]}){_hist_text(prog, pr)} raises {pr["error"]}'
+                          + (' AND the input object was modified by the raising call' if pr.get('error_input_modified') else '')
+                          + f' on layout {summary_of(case, cres)}',
+                          {'case': one, 'error': pr['error'], 'input_modified_by_raising_call': bool(pr.get('error_input_modified'))})
             n += 1
             continue
         if where == 'py':
@@ -452,6 +463,7 @@ def correspondence(ctx):
     # ---- coverage
     n_programs = sum(1 for _, cres in layouts for pr in cres['programs'] if 'coq' in pr)
     per_tag, per_grid, per_view, per_dtype, per_style = {}, {}, {}, {}, {}
+    per_dtype_container, int_edges = {}, {}
     events = 0
     edges = 0
     empty_bins = total_bins = 0
@@ -466,6 +478,11 @@ def correspondence(ctx):
             vk = 'strided-slice'
         per_view[vk] = per_view.get(vk, 0) + 1
         per_dtype[case['tof_dtype']] = per_dtype.get(case['tof_dtype'], 0) + 1
+        dk = case['tof_dtype'] + ('/Dataset' if case['dataset'] else '/DataArray')
+        n_here = sum(1 for pr in cres['programs'] if 'coq' in pr)
+        per_dtype_container[dk] = per_dtype_container.get(dk, 0) + n_here
+        if case['tof_dtype'] in INT_TOF and case['edges'] and case['edges_int'] and case['grid'] in ('outer', 'inner'):
+            int_edges[case['tof_dtype']] = int_edges.get(case['tof_dtype'], 0) + n_here
         per_style[case['style'] + '/' + case['storage']] = per_style.get(case['style'] + '/' + case['storage'], 0) + 1
         bs = cres['summary']['bin_sizes']
         total_bins += len(bs)
@@ -496,7 +513,8 @@ def correspondence(ctx):
         'distinct_nontrivial': len(distinct),
         'rule': 'a programme = one binned layout (grid kind x shape x events per bin 0..40 with ~30% empty bins, all-empty and '
                 'single-huge-bin layouts, contiguous / gapped / permuted storage, ~30% slices, strided slices, integer indexing, '
-                'transposes of a parent; event tof float64/float32/int64 in us/ms/s/ns; per-pixel positions or Ltotal/two_theta/L1/L2; '
+                'transposes of a parent; event tof float64/float32 in us/ms/s/ns or integer ticks int64/int32 in us/ns (integer '
+                'tof bin edges then have the same integer dtype on half of the layouts with edges); per-pixel positions or Ltotal/two_theta/L1/L2; '
                 'pixel, 2-d and event masks; extra event and bin coordinates; optional 1-d/2-d tof bin edges; optional Dataset wrapper; '
                 'on ~40% of the layouts one more programme with a CALL HISTORY, see call_histories) '
                 'x one target reachable from tof (graph nodes enumerated from conversion_graph at run time), compared in Coq '
@@ -508,6 +526,12 @@ def correspondence(ctx):
         'edge_values_compared': edges,
         'bins': total_bins, 'empty_bins': empty_bins,
         'per_target': per_tag, 'per_grid': per_grid, 'per_view': per_view, 'per_tof_dtype': per_dtype,
+        'programmes_per_event_dtype_and_container': per_dtype_container,
+        'programmes_with_integer_bin_edges_of_the_event_dtype': int_edges,
+        'input_snapshot': 'deep copy before the observed call, compared with sc.identical (values, variances, unit AND element '
+                          'dtype of every event / bin coordinate, masks, begin/end) for the input and the parent it is a view '
+                          'of; in addition the (dtype, unit) of every event and bin coordinate and of the event data is recorded '
+                          'by name before and after the call (flag input-<kind>:<name>-dtype-unit-modified)',
         'per_style_storage': per_style,
         'call_histories': {'programmes': sum(per_hist.values()), 'per_kind': per_hist, 'event_values_compared': hist_events,
                            'input_already_carries_target_event_coordinate': preexisting,
@@ -534,12 +558,16 @@ def search(ctx, broken):
     implementation over adversarial layouts (all-empty, single huge bin, slices / strided views / transposes),
     judged harness-side (python bit comparison with scipp's own bin assignment + sc.identical flags).
     Every layout also carries a programme with a CALL HISTORY (re-conversion, chains, precomputed event coordinate,
-    repeated calls): code that only runs when the input already has coordinates named like the target or like
+    repeated calls; event coordinate dtypes float64 / float32 / int64 / int32 in turn): code that only runs when the input already has coordinates named like the target or like
     intermediate results (the usual shape of an `exercise:...core/conversions.py:<new helper>` obligation) is reached
     by those."""
     rng = random.Random(ctx.seed + 6)
     ptr = {'layout': 0, 'main': 0, 'geo': 0}
-    cases = [gen_case(rng, 100000 + i, ptr, 3, adversarial=True, hist_share=1.0) for i in range(80)]
+    # the event coordinate's dtype and the container are walked SYSTEMATICALLY (not drawn): code that only runs for one
+    # dtype of the origin coordinate, or only for DataArray / only for Dataset input, is met by every fourth layout
+    # (a Dataset on every fifth), whatever the seed
+    cases = [gen_case(rng, 100000 + i, ptr, 3, adversarial=True, hist_share=1.0,
+                      tof_dtype=TOF_DTYPES[i % len(TOF_DTYPES)], dataset=(i % 5 == 4)) for i in range(80)]
     results, _, _ = _run(ctx, cases, 'py')
     found = []
     for case, cres in zip(cases, results):
@@ -584,7 +612,7 @@ LEVEL_TEXT = ('Translation validation: on every run, ~1300 (quick) (binned layou
               'history (input = result of earlier conversions: re-conversion, chains tof->wavelength->energy, precomputed event '
               'coordinate, repeated calls; deep snapshot of THAT input incl. its set of event coordinates) - every node of the tof '
               'conversion graphs x 1-d/2-d grids, empty/uneven/huge bins, gaps, permuted storage, slices and transposes, '
-              'float32/float64/int64 events - are run through scippneutron.convert and through the Coq model of binned data '
+              'float32/float64/int64/int32 events - are run through scippneutron.convert and through the Coq model of binned data '
               '(bin_of, convert_binned) instantiated with the separately evaluated dense kernel; event values and bin edges must be '
               'bit-identical, weights/variances/order/membership equal (compared by vm_compute), masks/coordinates/input identical '
               '(sc.identical). Proved (axiom-free) about the model: bin_of is total and correct for non-overlapping bins, '
